@@ -72,8 +72,8 @@ Fixpoint read_bytes_lf (s : list Z) : list Z * list Z :=
   | c :: r => if c =? 10 then ([c], r) else let (l, rest) := read_bytes_lf r in (c :: l, rest)
   end.
 (* line[len(line)-1] == c *)
-Definition last_is (l : list Z) (c : Z) : res bool :=
-  match rev l with [] => Crash | x :: _ => Ok (x =? c) end.
+Definition last_is (l : list Z) (c : Z) : res bool :=                 (* rev_append l [] = rev l, in linear time *)
+  match rev_append l [] with [] => Crash | x :: _ => Ok (x =? c) end.
 (* one call: None = (nil, io.EOF); Some (line, remaining stream) *)
 Definition read_line (s : list Z) : res (option (list Z * list Z)) :=
   let (line, rest) := read_bytes_lf s in
@@ -94,6 +94,76 @@ Fixpoint read_all (fuel : nat) (s : list Z) : res (list (list Z)) :=
            match o with None => Ok [] | Some (l, rest) => res_map (cons l) (read_all f rest) end)
   end.
 Definition read_lines (s : list Z) : res (list (list Z)) := read_all (S (length s)) s.
+
+(* ------------------------------------------------------------------ ReadLine over a reader that can fail *)
+(* The stream under the bufio.Reader is a list of EVENTS: a byte (< 256) or a read error (256 + code, code 0 = io.EOF)
+   which the underlying Read hands out once; after the last event it answers io.EOF for ever. How the bytes are cut
+   into Read calls, how large bufio's buffer is and whether an error arrives with the last data or alone do not
+   appear (the harness varies all three): bufio.Reader.ReadBytes('\n') returns the bytes up to and including the
+   next LF with a nil error, or the bytes up to the next error event together with that error (the event is used
+   up: bufio.Reader.readErr), or the rest with io.EOF. Result: (bytes, error, remaining events). *)
+Definition EV_EOF : Z := 256.
+Definition is_err_ev (c : Z) : bool := 256 <=? c.
+Fixpoint read_bytes_ev (s : list Z) : list Z * option Z * list Z :=
+  match s with
+  | [] => ([], Some EV_EOF, [])
+  | c :: r =>
+      if is_err_ev c then ([], Some c, r)
+      else if c =? 10 then ([c], None, r)
+      else match read_bytes_ev r with (l, e, rest) => (c :: l, e, rest) end
+  end.
+(* what one call of ReadLine hands to its caller: (line, nil) or (nil, err) *)
+Inductive rl_out : Type := RlLine (l : list Z) | RlErr (code : Z).
+(* the part of ReadLine after the error test: len(line) == 0 -> io.EOF; strip one LF, then one CR *)
+Definition rl_finish (line rest : list Z) : res (rl_out * list Z) :=
+  match line with
+  | [] => Ok (RlErr EV_EOF, rest)
+  | _ =>
+      res_bind (last_is line 10) (fun b =>
+      let line := if b then removelast line else line in
+      res_bind (match line with [] => Ok false | _ => last_is line 13 end) (fun b =>
+      let line := if b then removelast line else line in
+      Ok (RlLine line, rest)))
+  end.
+Definition read_line_ev (s : list Z) : res (rl_out * list Z) :=
+  match read_bytes_ev s with
+  | (line, Some e, rest) => if e =? EV_EOF then rl_finish line rest else Ok (RlErr e, rest)   (* err != nil && err != io.EOF *)
+  | (line, None, rest) => rl_finish line rest
+  end.
+(* n calls in a row, whatever they return *)
+Fixpoint read_calls (n : nat) (s : list Z) : res (list rl_out) :=
+  match n with
+  | O => Ok []
+  | S n' => res_bind (read_line_ev s) (fun p => res_map (cons (fst p)) (read_calls n' (snd p)))
+  end.
+(* what a caller that loops on err == nil sees: the lines before the first error, and that error *)
+Fixpoint until_err (o : list rl_out) : list (list Z) * option Z :=
+  match o with
+  | [] => ([], None)
+  | RlLine l :: r => let (ls, e) := until_err r in (l :: ls, e)
+  | RlErr c :: _ => ([], Some c)
+  end.
+
+(* ------------------------------------------------------------------ cmsys/file.go FileFindRecord, FileExistsRecord *)
+(* tokenize: endIdx = index of the LAST byte of the line that is in sep (the inner break leaves only the inner loop),
+   len(line) if there is none; first = line[:endIdx] *)
+Fixpoint tok_end (line sep : list Z) (idx endIdx : Z) : Z :=
+  match line with
+  | [] => endIdx
+  | c :: r => tok_end r sep (idx + 1) (if existsb (Z.eqb c) sep then idx else endIdx)
+  end.
+Definition tokenize_first (line sep : list Z) : list Z := firstn (Z.to_nat (tok_end line sep 0 (lenZ line))) line.
+Definition line_matches (key line : list Z) : bool := cstrcasecmp key (tokenize_first line BYTES_SPACE) =? 0.
+(* the loop over the lines of the file; idx counts from 1 *)
+Fixpoint find_record (key : list Z) (lines : list (list Z)) (idx : Z) : Z :=
+  match lines with
+  | [] => 0
+  | l :: r => if line_matches key l then idx + 1 else find_record key r (idx + 1)
+  end.
+Definition file_find_record (content key : list Z) : res Z :=
+  res_map (fun ls => find_record key ls 0) (read_lines content).
+Definition file_exists_record (content key : list Z) : res bool :=
+  res_map (fun i => 0 <? i) (file_find_record content key).
 
 (* ------------------------------------------------------------------ types/big5.go TrimDBCS *)
 (* returns (result, the caller's array afterwards) *)
@@ -280,6 +350,12 @@ Definition subject_ex (title : list Z) : res (Z * list Z) :=
 Fixpoint wire_lines (ls : list (list Z)) : list Z :=
   match ls with [] => [] | l :: r => lenZ l :: l ++ wire_lines r end.
 Definition wire2 (p : list Z * list Z) : list Z := lenZ (fst p) :: fst p ++ snd p.
+Fixpoint wire_outs (o : list rl_out) : list Z :=
+  match o with
+  | [] => []
+  | RlLine l :: r => 0 :: lenZ l :: l ++ wire_outs r
+  | RlErr c :: r => 1 :: (c - 256) :: wire_outs r
+  end.
 
 Definition fnv_op (kind : Z) (s : list Z) (h n : Z) : list Z :=
   if kind =? 1 then [ST_OK; fnv32_bytes s h]
@@ -323,6 +399,12 @@ Definition run_op (op : Z) (rest : list (list Z)) : list Z :=
   else if op =? 23 then match rest with [a; b] => [ST_OK; cstrcasestr a b] | _ => [ST_BADCASE] end
   else if op =? 24 then match rest with [a; b] => [ST_OK; b2z (cstr_case_has_prefix a b)] | _ => [ST_BADCASE] end
   else if op =? 25 then match rest with [a; sep] => ST_OK :: wire2 (cstr_token_r a sep) | _ => [ST_BADCASE] end
+  else if op =? 26 then match rest with       (* events, calls; the chunking and the buffer size / reader kind are not looked at *)
+       | [s; [n]; _; [_; _]] => wire (fun o => lenZ o :: wire_outs o) (read_calls (Z.to_nat n) s)
+       | _ => [ST_BADCASE] end
+  else if op =? 27 then match rest with
+       | [content; key] => wire (fun i => [i; b2z (0 <? i)]) (file_find_record content key)
+       | _ => [ST_BADCASE] end
   else [ST_BADCASE].
 
 Definition run_case (args : list (list Z)) : list Z :=
